@@ -49,7 +49,43 @@ type c11Cfg struct {
 	MaxRows    int64
 	Bloom      map[string]uint // leaf path -> bits per value
 	DeferBloom bool            // DeferBloomFiltersWithBuffers: filters are written at the end of the file
+	Enc        bool                 // the files written under this configuration are encrypted (WithEncryption)
+	Dec        []parquet.FileOption // what OpenFile needs to read them
 	Desc       string
+}
+
+// key retriever of the encryption class: one footer key, optional per-column keys
+type c11Keys struct {
+	footer []byte
+	cols   map[string][]byte
+}
+
+func (k c11Keys) FooterKey([]byte) ([]byte, error) { return k.footer, nil }
+func (k c11Keys) ColumnKey(path []string, _ []byte) ([]byte, error) {
+	if v, ok := k.cols[strings.Join(path, ".")]; ok {
+		return v, nil
+	}
+	return k.footer, nil
+}
+
+// c11Encrypted returns cfg with modular encryption switched on (footer key for every column or
+// one column under its own key; encrypted or plaintext footer)
+func c11Encrypted(r *rand.Rand, cfg *c11Cfg, schema *parquet.Schema) *c11Cfg {
+	keys := c11Keys{footer: []byte("0123456789abcdef"), cols: map[string][]byte{}}
+	ec := &parquet.EncryptionConfig{FooterKey: keys.footer, EncryptedFooter: r.Intn(2) == 0, FileIdentifier: []byte("c11-file")}
+	desc := fmt.Sprintf(" encrypted(footer=%v", ec.EncryptedFooter)
+	if cols := schema.Columns(); len(cols) > 0 && r.Intn(2) == 0 {
+		p := strings.Join(cols[r.Intn(len(cols))], ".")
+		keys.cols[p] = []byte("fedcba9876543210")
+		ec.ColumnKeys = map[string][]byte{p: keys.cols[p]}
+		desc += " columnkey=" + p
+	}
+	nc := *cfg
+	nc.Opts = append(append([]parquet.WriterOption{}, cfg.Opts...), parquet.WithEncryption(ec))
+	nc.Enc = true
+	nc.Dec = []parquet.FileOption{parquet.WithDecryption(keys)}
+	nc.Desc = cfg.Desc + desc + ")"
+	return &nc
 }
 
 var c11Encodings = map[parquet.Kind][]encoding.Encoding{
@@ -147,7 +183,7 @@ func c11RandCfg(r *rand.Rand, schema *parquet.Schema) *c11Cfg {
 
 // c11CfgLike returns B as a copy of A (so that the verbatim path is eligible) with a few axes re-drawn.
 func c11CfgLike(r *rand.Rand, a *c11Cfg, schema *parquet.Schema) *c11Cfg {
-	c := &c11Cfg{Base: a.Base, Opts: append([]parquet.WriterOption{}, a.Opts...), Stats: a.Stats, IndexLimit: a.IndexLimit, MaxRows: a.MaxRows, Bloom: a.Bloom, DeferBloom: a.DeferBloom}
+	c := &c11Cfg{Base: a.Base, Opts: append([]parquet.WriterOption{}, a.Opts...), Stats: a.Stats, IndexLimit: a.IndexLimit, MaxRows: a.MaxRows, Bloom: a.Bloom, DeferBloom: a.DeferBloom, Enc: a.Enc, Dec: a.Dec}
 	var extra []string
 	switch r.Intn(6) {
 	case 0:
@@ -223,7 +259,9 @@ func b2i(b bool) int {
 
 // c11FileInfo extracts, from the footer, the page index and the page headers, what the copy
 // predicates read and what the settings oracle checks. Indexed [row group][column].
-func c11FileInfo(file []byte, f *parquet.File) (out [][]c11Chunk, err error) {
+func c11FileInfo(file []byte, f *parquet.File, encrypted ...bool) (out [][]c11Chunk, err error) {
+	// page headers (and bloom filter headers) of an encrypted file cannot be parsed from the raw bytes
+	parsePages := len(encrypted) == 0 || !encrypted[0]
 	defer func() {
 		if r := recover(); r != nil {
 			err = fmt.Errorf("PANIC: %v", r)
@@ -247,7 +285,7 @@ func c11FileInfo(file []byte, f *parquet.File) (out [][]c11Chunk, err error) {
 			for _, s := range m.EncodingStats {
 				c.EncStats = append(c.EncStats, [3]int{int(s.PageType), int(s.Encoding), int(s.Count)})
 			}
-			if c.BloomOff != 0 && c.BloomLen > 0 && c.BloomOff+int64(c.BloomLen) <= int64(len(file)) {
+			if parsePages && c.BloomOff != 0 && c.BloomLen > 0 && c.BloomOff+int64(c.BloomLen) <= int64(len(file)) {
 				var h format.BloomFilterHeader
 				p := thrift.CompactProtocol{}
 				if e := thrift.NewDecoder(p.NewReader(bytes.NewReader(file[c.BloomOff : c.BloomOff+int64(c.BloomLen)]))).Decode(&h); e == nil {
@@ -260,7 +298,7 @@ func c11FileInfo(file []byte, f *parquet.File) (out [][]c11Chunk, err error) {
 			if k < len(cis) {
 				c.Values = c11Values(m, &cis[k])
 			}
-			if k < len(ois) && k < len(cis) {
+			if parsePages && k < len(ois) && k < len(cis) {
 				cix := &cis[k]
 				for pi, loc := range ois[k].PageLocations {
 					c.Locs = append(c.Locs, [3]int64{loc.Offset, int64(loc.CompressedPageSize), loc.FirstRowIndex})
@@ -367,12 +405,12 @@ type c11Env struct {
 	chunkOf map[*parquet.FileColumnChunk]*c11Chunk // metadata of every source file chunk
 }
 
-func (env *c11Env) open(file []byte, rows reflect.Value) (*c11File, error) {
-	f, err := parquet.OpenFile(bytes.NewReader(file), int64(len(file)))
+func (env *c11Env) open(file []byte, rows reflect.Value, dec ...parquet.FileOption) (*c11File, error) {
+	f, err := parquet.OpenFile(bytes.NewReader(file), int64(len(file)), dec...)
 	if err != nil {
 		return nil, err
 	}
-	info, err := c11FileInfo(file, f)
+	info, err := c11FileInfo(file, f, len(dec) > 0)
 	if err != nil {
 		return nil, err
 	}
@@ -809,13 +847,13 @@ func c11Settings(b *c11Cfg, got, ref [][]c11Chunk, ncol int) (aspects []string, 
 }
 
 // rowsOfFile reads every row of a file as canonical text (for multiset comparison)
-func rowsOfFile(file []byte) (out []string, err error) {
+func rowsOfFile(file []byte, dec ...parquet.FileOption) (out []string, err error) {
 	defer func() {
 		if r := recover(); r != nil {
 			err = fmt.Errorf("PANIC: %v", r)
 		}
 	}()
-	f, err := parquet.OpenFile(bytes.NewReader(file), int64(len(file)))
+	f, err := parquet.OpenFile(bytes.NewReader(file), int64(len(file)), dec...)
 	if err != nil {
 		return nil, err
 	}
@@ -861,8 +899,8 @@ func (c *c11Case) compareRows(tieDependent bool, refCols, gotCols [][]gen.Triple
 	if c.kind == "merged-dedup" {
 		return true, ""
 	}
-	a, err1 := rowsOfFile(ref)
-	b, err2 := rowsOfFile(got)
+	a, err1 := rowsOfFile(ref, c.b.Dec...)
+	b, err2 := rowsOfFile(got, c.b.Dec...)
 	if err1 != nil || err2 != nil {
 		return false, fmt.Sprintf("rows unreadable: %v %v", err1, err2)
 	}
@@ -1031,13 +1069,13 @@ func c11Split(n, maxRows int64) (out []int64) {
 }
 
 // c11BloomMisses: every value stored in a chunk that carries a bloom filter must be found by it
-func c11BloomMisses(file []byte) (misses []string, err error) {
+func c11BloomMisses(file []byte, dec ...parquet.FileOption) (misses []string, err error) {
 	defer func() {
 		if r := recover(); r != nil {
 			err = fmt.Errorf("PANIC: %v", r)
 		}
 	}()
-	f, err := parquet.OpenFile(bytes.NewReader(file), int64(len(file)))
+	f, err := parquet.OpenFile(bytes.NewReader(file), int64(len(file)), dec...)
 	if err != nil {
 		return nil, err
 	}
@@ -1256,20 +1294,20 @@ func c11Run(ctx *core.Ctx, env *c11Env, d interface {
 	}
 
 	// ---- L1a: same rows, same order
-	refCols, err := gen.ReadColumns(ref)
+	refCols, err := gen.ReadColumns(ref, c.b.Dec...)
 	if err != nil {
 		ctx.Fail("L1", "row-path-unreadable "+sig+" "+errClass(err), "the one-by-one file cannot be read back: "+err.Error(), detail(nil))
 		return
 	}
-	outCols, err := gen.ReadColumns(out.file)
+	outCols, err := gen.ReadColumns(out.file, c.b.Dec...)
 	if err != nil {
 		ctx.Fail("L1", "output-unreadable "+sig+" "+errClass(err), "the file written through WriteRowGroup cannot be read back: "+err.Error(), detail(map[string]any{"copied_chunks": out.copyN, "reencoded_row_groups": out.reencN}))
 		return
 	}
 	pathSig := fmt.Sprintf("copy=%v reencode=%v", out.copyN > 0, out.reencN > 0)
 	// the output must be readable row by row (the row reader insists on pages starting at a row)
-	if _, _, err := gen.ReadRowsColumns(out.file, 64); err != nil {
-		if _, _, rerr := gen.ReadRowsColumns(ref, 64); rerr != nil {
+	if _, _, err := gen.ReadRowsColumns(out.file, 64, c.b.Dec...); err != nil {
+		if _, _, rerr := gen.ReadRowsColumns(ref, 64, c.b.Dec...); rerr != nil {
 			ctx.Hist("row-path-file-unreadable-by-rows-too", c.kind)
 		} else {
 			ctx.Fail("L1", "output-rows-unreadable "+pathSig+" "+errClass(err), "the file written through WriteRowGroup cannot be read back row by row: "+err.Error(),
@@ -1277,7 +1315,7 @@ func c11Run(ctx *core.Ctx, env *c11Env, d interface {
 		}
 	}
 	// ... and accepted by the Lean spec reader of C02 (structure, page/row alignment, counts)
-	if d != nil {
+	if d != nil && !c.b.Enc { // the Lean reader does not decrypt
 		if why := c11SpecCheck(d, out.file, c.b.MaxRows); why != "" {
 			if c11SpecCheck(d, ref, c.b.MaxRows) != "" {
 				ctx.Hist("row-path-file-rejected-by-spec-reader-too", c02Class(why))
@@ -1309,7 +1347,7 @@ func c11Run(ctx *core.Ctx, env *c11Env, d interface {
 		ctx.Fail("L1", "rows-differ "+sig+" "+pathSig, "WriteRowGroup stored other rows than Rows() yields: "+desc,
 			detail(map[string]any{"copied_chunks": out.copyN, "reencoded_row_groups": out.reencN}))
 	}
-	offCols, err := gen.ReadColumns(off.file)
+	offCols, err := gen.ReadColumns(off.file, c.b.Dec...)
 	if err != nil {
 		ctx.Fail("L1", "output-unreadable(disabled) "+sig+" "+errClass(err), "the file written with both fast paths disabled cannot be read back: "+err.Error(), detail(nil))
 	} else if same, desc := c.compareRows(tieDependent, refCols, offCols, ref, off.file); !same {
@@ -1354,8 +1392,8 @@ func c11Run(ctx *core.Ctx, env *c11Env, d interface {
 	}
 
 	// ---- L1b: B's settings honoured
-	fo, err1 := parquet.OpenFile(bytes.NewReader(out.file), int64(len(out.file)))
-	fr, err2 := parquet.OpenFile(bytes.NewReader(ref), int64(len(ref)))
+	fo, err1 := parquet.OpenFile(bytes.NewReader(out.file), int64(len(out.file)), c.b.Dec...)
+	fr, err2 := parquet.OpenFile(bytes.NewReader(ref), int64(len(ref)), c.b.Dec...)
 	if err1 != nil || err2 != nil {
 		ctx.Fail("L1", "output-unopenable "+sig, fmt.Sprintf("OpenFile failed: %v %v", err1, err2), detail(nil))
 		return
@@ -1387,8 +1425,24 @@ func c11Run(ctx *core.Ctx, env *c11Env, d interface {
 		}
 		ctx.Hist("metadata-describes-pages-checked", pathSig)
 	}
-	outInfo, err1 := c11FileInfo(out.file, fo)
-	refInfo, err2 := c11FileInfo(ref, fr)
+	outInfo, err1 := c11FileInfo(out.file, fo, c.b.Enc)
+	refInfo, err2 := c11FileInfo(ref, fr, c.b.Enc)
+	// an encrypted side never takes the verbatim path (pages sealed under another file's AAD / in
+	// the clear); stated here on the counters alone, the mirror comparison follows below
+	srcEnc := false
+	for _, s := range c.srcs {
+		for _, cc := range s.rg.ColumnChunks() {
+			if fc, ok := cc.(*parquet.FileColumnChunk); ok && parquet.VerifSourceEncrypted(fc) {
+				srcEnc = true
+			}
+		}
+	}
+	if c.b.Enc || srcEnc {
+		ctx.Hist("encryption", fmt.Sprintf("source=%v destination=%v %s", srcEnc, c.b.Enc, pathSig))
+		if out.copyN != 0 && (c.b.Enc || c.kind == "file" || c.kind == "range") {
+			ctx.Fail("L2", "verbatim-copy-with-an-encrypted-side", fmt.Sprintf("%d chunks were copied verbatim although the source or the destination is encrypted", out.copyN), detail(nil))
+		}
+	}
 	if err1 != nil || err2 != nil {
 		ctx.Fail("L1", "output-metadata-unreadable "+sig, fmt.Sprintf("page headers / indexes unreadable: %v %v", err1, err2), detail(nil))
 		return
@@ -1445,11 +1499,11 @@ func c11Run(ctx *core.Ctx, env *c11Env, d interface {
 				}
 			}
 		}
-		misses, err := c11BloomMisses(out.file)
+		misses, err := c11BloomMisses(out.file, c.b.Dec...)
 		if err != nil {
 			ctx.Fail("L1", "bloom-filter-unreadable "+sig+" "+errClass(err), "bloom filters of the output cannot be checked: "+err.Error(), detail(extra))
 		} else if len(misses) > 0 {
-			if refMisses, _ := c11BloomMisses(ref); len(refMisses) > 0 {
+			if refMisses, _ := c11BloomMisses(ref, c.b.Dec...); len(refMisses) > 0 {
 				ctx.Hist("bloom-miss-on-row-path-too", c.kind) // not specific to WriteRowGroup (C07)
 			} else {
 				extra["missed"] = misses
@@ -1619,7 +1673,7 @@ func c11Build(ctx *core.Ctx, env *c11Env, e *gen.Entry, r *rand.Rand, kind strin
 		if err != nil {
 			return nil
 		}
-		cf, err := env.open(file, rv)
+		cf, err := env.open(file, rv, cfg.Dec...)
 		if err != nil {
 			return nil
 		}
@@ -2058,7 +2112,7 @@ func RunC11(ctx *core.Ctx) {
 			c11F9(ctx, env, nil)
 		}
 	}
-	per := ctx.Scale(3, 36) // cases per (type, kind)
+	per := ctx.Scale(3, 28) // cases per (type, kind)
 	var wg sync.WaitGroup
 	sem := make(chan struct{}, 16)
 	for ei, e := range gen.Catalog {
@@ -2140,6 +2194,61 @@ func RunC11(ctx *core.Ctx) {
 							continue
 						}
 						ctx.Hist("destination-limit-below-source-limit", kind)
+						if d == nil {
+							c11Run(ctx, env, nil, c, false)
+						} else {
+							c11Run(ctx, env, d, c, false)
+						}
+					}
+				}
+			}
+			// modular encryption on the source, on the destination, or on both (same keys)
+			{
+				re := ctx.Rand("c11-encryption/" + e.Name)
+				for _, kind := range []string{"file", "range", "multi", "buffer", "merged-packed"} {
+					for k := 0; k < ctx.Scale(1, 4); k++ {
+						mode := re.Intn(3)
+						opt := &c11BuildOpt{
+							tweakA: func(a *c11Cfg) {
+								if mode != 1 {
+									*a = *c11Encrypted(re, a, e.Schema)
+								}
+							},
+							makeB: func(r *rand.Rand, a *c11Cfg) *c11Cfg {
+								var b *c11Cfg
+								switch {
+								case mode == 2: // same configuration and keys, possibly one axis changed
+									b = c11CfgLike(r, a, e.Schema)
+									b.Enc, b.Dec = a.Enc, a.Dec
+								case r.Intn(2) == 0:
+									plain := *a
+									if a.Enc { // A without its encryption option (the last one appended)
+										plain.Opts, plain.Enc, plain.Dec = a.Opts[:len(a.Opts)-1], false, nil
+										plain.Desc = a.Desc + " | like-A without encryption"
+									}
+									b = c11CfgLike(r, &plain, e.Schema)
+								default:
+									b = c11RandCfg(r, e.Schema)
+								}
+								if mode == 1 {
+									b = c11Encrypted(r, b, e.Schema)
+								}
+								return b
+							},
+						}
+						env := &c11Env{chunkOf: map[*parquet.FileColumnChunk]*c11Chunk{}}
+						var c *c11Case
+						func() {
+							defer func() {
+								if rec := recover(); rec != nil {
+									ctx.Fail("L1", "panic-building-source kind="+kind, fmt.Sprintf("building the source row group panicked: %v", rec), map[string]any{"type": e.Name, "kind": kind, "encryption_mode": mode})
+								}
+							}()
+							c = c11Build(ctx, env, e, re, kind, []int{3, 33, 100, 257}[re.Intn(4)], opt)
+						}()
+						if c == nil {
+							continue
+						}
 						if d == nil {
 							c11Run(ctx, env, nil, c, false)
 						} else {
